@@ -42,6 +42,7 @@ RULE = ('Histories of 3-10 steps over one reference directory: '
 RULE += ' ' + "Also: kind lists as typed ('table,', 'table, graph', ',table'); in half of the cases every result file and regenerated reference carries one fixed modification time, with contents of equal size; in two cases of three two long-lived test objects (regenerating assertions through one, the others through the other); strings starting with U+FEFF."
 RULE += ' ' + 'Round 6: half of the DataFrame assertions pass actual_path naming an existing parquet file that holds every row twice.'
 RULE += ' ' + "Round 7: half of the histories name references by bare file name, found through a declared default location and a location of its own for kind 'table'; Latin-1 texts are written as Latin-1 every other time and the assertion told encoding='iso-8859-1'; the list form assertTextFilesCorrect is a fifth kind of assertion."
+RULE += ' ' + 'Round 8: frames holding datetime.date objects and byte strings.'
 ASSUMPTIONS = ['reference paths are absolute (per-kind data locations are '
                'not exercised)',
                'text is UTF-8; assertTextFilesCorrect in regeneration mode '
